@@ -126,13 +126,18 @@ func (c *Calcium) doCreateWorkloads(ctx context.Context, opts *types.DeployOptio
 					processingCommits = make(map[string]wal.Commit)
 					for nodename, deploy := range deployMap {
 						nodes = append(nodes, nodeMap[nodename])
-						if workloadResourcesMap[nodename], engineParamsMap[nodename], err = c.rmgr.Alloc(ctx, nodename, deploy, opts.Resources); err != nil {
+						workloadResources, engineParams, err := c.rmgr.Alloc(ctx, nodename, deploy, opts.Resources)
+						if err != nil {
 							return err
 						}
+						// only what has really been allocated is recorded: the rollback gives it back
+						workloadResourcesMap[nodename], engineParamsMap[nodename] = workloadResources, engineParams
 						processing := opts.GetProcessing(nodename)
-						if processingCommits[nodename], err = c.wal.Log(eventProcessingCreated, processing); err != nil {
+						processingCommit, err := c.wal.Log(eventProcessingCreated, processing)
+						if err != nil {
 							return err
 						}
+						processingCommits[nodename] = processingCommit
 						if err = c.store.CreateProcessing(ctx, processing, deploy); err != nil {
 							return err
 						}
@@ -150,7 +155,12 @@ func (c *Calcium) doCreateWorkloads(ctx context.Context, opts *types.DeployOptio
 			// rollback: give back resources
 			func(ctx context.Context, failedOnCond bool) (err error) {
 				if failedOnCond {
-					return
+					// nothing has been deployed, but the nodes handled before the failing
+					// step have already been charged: give all of that back
+					rollbackMap = map[string][]int{}
+					for nodename, workloadResources := range workloadResourcesMap {
+						rollbackMap[nodename] = utils.Range(len(workloadResources))
+					}
 				}
 				for nodename, rollbackIndices := range rollbackMap {
 					if e := c.withNodePodLocked(ctx, nodename, func(ctx context.Context, _ *types.Node) error {
